@@ -65,6 +65,20 @@ PROPS["C03"] = {
     "assumptions": ["a single write(2) on the log is atomic with respect to process death"],
 }
 
+PROPS["C04"] = {
+    "kind": "harness", "test": "TestC04", "level": "fault_enumeration", "journal": True,
+    "tiers": tiers(60, 4, 400, 16),
+    "rule": "rapid-generated histories (3-16 valid statements, flush after most statements) ending in shutdown or process death; EVERY flush in them (timer tick = VerifFlush, the one ending CREATE TABLE, "
+            "the one in shutdown, and the one that ends recovery of the crashed image) is recorded through the hooks and its torn states are composed: pre-flush file + subset S of the flushed pages + old header, "
+            "all 2^|D| subsets for |D|<=6 else >=64 sampled incl. all singletons and co-singletons; each composed image is recovered with the real InitStorage and compared with the model of all statements acknowledged "
+            "before the flush began (an in-flight CREATE TABLE may or may not exist). Subsets inside the listed finding's region (proper non-empty subsets of a flush that wrote a page at/after the on-disk allocation frontier) are "
+            "excluded from the verdict, counted, and a sample of them is recovered in a child process for the statistics. Non-trivial: a case with a flush of >=2 dirty pages for which a proper non-empty subset outside the region was recovered; distinct by case JSON.",
+    "technique": "fault injection by composing torn flush states (page subsets) per recorded flush of generated histories (rapid + hooks), recovery compared with a reference model",
+    "level_text": "Per generated history every flush is attacked with all (or >=64 sampled) page-subset torn states at page granularity, which covers every write order Go's map iteration could take; histories are random. The region of the listed structural finding is excluded by construction and counted.",
+    "level_note": "Page-granular tearing (a torn 4096-byte write is not generated); crash = process death. Trusted: the composition (checked against the real file after each flush by construction: S=D + new header is the real post image), reference model.",
+    "assumptions": ["a single page write is atomic", "crash = process death, completed writes are in the file"],
+}
+
 HOOK_COMMITS = ["7ca683e"]
 
 NOT_APPLICABLE = {}
